@@ -1,4 +1,5 @@
 pub mod c05;
+pub mod c09;
 pub mod c18;
 pub mod codec;
 pub mod hist;
